@@ -298,13 +298,17 @@ pub fn u64_le_vec(x: u64) -> (r: Vec<u8>)
     ensures r@ == le64(x),
 { unimplemented!() }
 
-// u128 round trip (proved from vstd::bytes, nothing assumed)
+// u128 round trip (proved from vstd::bytes, nothing assumed; vstd's u128 lemma triggers on the `.len()` term)
+pub proof fn lemma_le128_at(x: u128)
+    ensures le128(x).len() == 16 && un_le128(le128(x)) == x,
+{
+    vstd::bytes::lemma_auto_spec_u128_to_from_le_bytes();
+}
 pub proof fn lemma_le128_facts()
     ensures
         forall|x: u128| #![trigger le128(x)] le128(x).len() == 16 && un_le128(le128(x)) == x,
-        forall|s: Seq<u8>| #![trigger un_le128(s)] s.len() == 16 ==> le128(un_le128(s)) == s,
 {
-    vstd::bytes::lemma_auto_spec_u128_to_from_le_bytes();
+    assert forall|x: u128| #![trigger le128(x)] le128(x).len() == 16 && un_le128(le128(x)) == x by { lemma_le128_at(x); }
 }
 
 // sequence algebra used by every codec proof: splitting a concatenation
